@@ -332,6 +332,10 @@ ADDENDA = {
     "C36": "Also decided: every occurrence of a bucket/proof/reservation in an invocation's arguments is consumed (no collapsing collection between the walk and consume_*).",
     "C40": "Also decided: proofs of the controlled asset are created only behind the primary-role Unlocked arm.",
     "C41": "Also decided: inside contribute a value is rounded up only where no pool units are in circulation.",
+    "C15": "Also decided: the in-memory store re-examines every partition entry it creates for emptiness (no phantom partitions).",
+    "C24": "Also decided: the checked division truncates (no euclidean/floor/ceil division in CheckedDiv bodies).",
+    "C26": "Also decided: in checked_powi the overflow-panicking wide-integer operators are applied to constants only.",
+    "C27": "Also decided: the sign of a numeral with an all-zero integral part is taken from a prefix test on the text.",
     "C17": "Also decided: the jellyfish collapse condition tests old and new children symmetrically (both at most one).",
     "C23": "Also decided: NumericValidation::compare orders the effective bounds, never the raw Option bounds.",
     "C25": "Also decided: Decimal and PreciseDecimal checked_round perform the same operations per strategy arm.",
